@@ -19,7 +19,7 @@ QUANTA = {'quick': [Fraction(1, 4)], 'thorough': [Fraction(1, 4), Fraction(1, 8)
 
 @st.composite
 def grid_signal(draw, k0, max_samples=8, max_gap=6, var_bound=8.0, min_samples=1):
-    n = draw(st.sampled_from([m for m in (1, 2, 2, 3, 3, 4, 4, 5, 6, 7, 8) if min_samples <= m <= max_samples]))
+    n = draw(st.sampled_from([m for m in (1, 2, 2, 3, 3, 4, 4, 5, 6, 7, 8, 10, 12, 16, 20) if min_samples <= m <= max_samples]))
     vals = draw(st.lists(F.values(var_bound), min_size=n, max_size=n))
     k = k0
     out = []
